@@ -57,20 +57,24 @@ def run_config(cf):
     x = 'time' if kind == 't2t' else 'x'
     f = pnc.PseudoNetCDFFile()
     f.createDimension(x, n)
-    v = f.createVariable(x, 'd', (x,))
-    v[:] = c
+    # (cf['sc'] = 2: the model's values are in half units of the file's - a
+    # coordinate of storage type cf['cdt'] (integer, float32) is then queried
+    # with values between its representable neighbours)
+    sc = cf.get('sc', 1)
+    v = f.createVariable(x, cf.get('cdt', 'd'), (x,))
+    v[:] = [ci // sc for ci in c] if sc != 1 else c
     if kind != 'val':
         v.units = '%s since %s' % (cf['unit'], cf['refs'])
     if cf['rep'] == 'edges':
         f.createDimension('xe', n + 1)
         b = f.createVariable(x + '_bounds', 'd', ('xe',))
-        b[:] = cf['e']
+        b[:] = np.array(cf['e'], 'd') / sc
     elif cf['rep'] == 'nx2':
         f.createDimension('nv', 2)
         b = f.createVariable(x + ('_bounds' if kind == 't2t' else '_bnds'),
                              'd', (x, 'nv'))
-        b[:, 0] = cf['e'][:-1]
-        b[:, 1] = cf['e'][1:]
+        b[:, 0] = np.array(cf['e'][:-1], 'd') / sc
+        b[:, 1] = np.array(cf['e'][1:], 'd') / sc
     kw = dict(method=cf['method'], bounds=cf['bnd'], clean=cf['clean'])
     if cf['nan']:
         kw['left'] = np.nan
@@ -83,7 +87,7 @@ def run_config(cf):
         import io
         import contextlib
         err = io.StringIO()
-        vals = np.array([float(p) for p in cf['probes']])
+        vals = np.array([float(p) / sc for p in cf['probes']])
         if cf['arr'] == '2d' and vals.size % 2 == 0:
             vals = vals.reshape(2, -1)
         with warnings.catch_warnings(record=True) as wl, \
@@ -125,7 +129,7 @@ def run_config(cf):
                         t, civ = _probe_time(cf, p)
                         r = f.time2t(np.array([t]), ttype=cf['ttype'])
                     else:
-                        r = f.val2idx('x', np.array([float(p)]), **kw)
+                        r = f.val2idx('x', np.array([float(p) / sc]), **kw)
                 r = np.ma.asarray(r).ravel()
                 if np.ma.getmaskarray(r)[0]:
                     ob = {'k': 'masked', 'i': 0}
@@ -142,7 +146,7 @@ def run_config(cf):
     out = dict(cf)
     out['kind'] = kind
     out['obs'] = obs
-    ca = np.asarray(f.variables[x][...]).tolist()
+    ca = (np.asarray(f.variables[x][...], dtype='d') * sc).tolist()
     out['c_after'] = [int(x) if float(x).is_integer() else -999999
                       for x in ca]
     return out
@@ -224,6 +228,10 @@ def run(tier):
               'bnd': rnd.choice(['ignore', 'warn', 'error']), 'nan': nan}
         ps = set(vals) | set(e) | {x + 1 for x in e} | {x - 1 for x in e} | \
             {min(e) - 40, max(e) + 40}
+        if rnd.random() < 0.4:      # typed coordinate, queries in half units
+            cf['sc'] = 2
+            cf['cdt'] = rnd.choice(['i', 'f', 'h'])
+            ps |= {x + 1 for x in vals} | {x - 1 for x in vals}
         cf['probes'] = sorted(ps)
         extra.append(cf)
     # array queries on longer coordinates: values repeated within one call,
@@ -248,6 +256,9 @@ def run(tier):
         ps = ps + [rnd.choice(ps) for _ in range(rnd.randint(1, 3))]
         rnd.shuffle(ps)
         cf['probes'] = ps
+        if rnd.random() < 0.4:
+            cf['sc'] = 2
+            cf['cdt'] = rnd.choice(['i', 'f', 'h'])
         extra.append(cf)
     # an explicit finite value for the right side (left omitted): what is
     # returned above the last edge, method 'bounds', ascending coordinates
